@@ -424,7 +424,9 @@ def gen_doc(rng, adversarial=False):
         it = {'id': i, 'order': pick([0, 0, 0, 0, 1, -1]), 'rs': rs, 're': re, 'cs': cs, 'ce': ce,
               'width': None, 'height': None, 'ml': 0, 'mr': 0, 'mt': 0, 'mb': 0,
               'pl': 0, 'pr': 0, 'pt': 0, 'pb': 0, 'bl': 0, 'br': 0, 'bt': 0, 'bb': 0,
-              'js': pick(JUSTIFY_SELF), 'as': pick(ALIGN_SELF)}
+              'js': pick(JUSTIFY_SELF), 'as': pick(ALIGN_SELF),
+              # css-grid 6.1: `float` has no effect on a grid item (the model does not even receive it)
+              'float': pick(['none'] * 9 + ['left', 'right'])}
         if single_cell(cs, ce) and rng.random() < 0.6:
             it['width'] = pick([None, 10, 20, 30, 50])
             if rng.random() < 0.3:
@@ -538,7 +540,7 @@ def html_of(doc, shorthand=False):
                f'margin:{px(it["mt"])} {px(it["mr"])} {px(it["mb"])} {px(it["ml"])};'
                f'padding:{px(it["pt"])} {px(it["pr"])} {px(it["pb"])} {px(it["pl"])};'
                f'border-width:{px(it["bt"])} {px(it["br"])} {px(it["bb"])} {px(it["bl"])};'
-               f'justify-self:{it["js"]};align-self:{it["as"]}')
+               f'justify-self:{it["js"]};align-self:{it["as"]};float:{it.get("float", "none")}')
         items.append(f'<div id="i{it["id"]}" style="{css}"></div>')
     return ('<style>@page{size:6000px 20000px;margin:0}html,body{margin:0;padding:0}'
             '#c>div{border:0 solid black}</style>'
